@@ -335,9 +335,8 @@ let do_ct line =
   | ["ct"; ck; bs; isz] :: hashes :: [data] :: [stream] :: _ ->
     let data = if data = "-" then [] else bytes_of_hex data in
     let blocks = chunks_of (int_of_string bs) data in
-    let hs = List.filter (fun h -> h <> "-") hashes in
-    let table = List.combine (List.map hex_of_bytes blocks) (List.map ns hs) in
-    let hash b = try List.assoc (hex_of_bytes b) table with Not_found -> K.N0 in
+    ignore hashes; (* the block hashes the Go hashers returned: kept in the case line for the replay, the model computes its own *)
+    let hash = K.block_hash (ns ck) in
     let cfg = { K.h_ck = ns ck; K.h_etype = K.N0; K.h_ttype = K.N0; K.h_bsize = ns bs; K.h_isize = ns isz } in
     let out = K.write_stream hash cfg blocks in
     let evalid e = (K.en_get_name (z_of_zar (zar_of_n e))) <> None in
@@ -351,6 +350,12 @@ let do_ct line =
           | _ -> "P:fail" in
         go frames 0 0 0 in
     "S:" ^ hex_of_bytes out ^ " " ^ p
+  | _ -> "badcase"
+
+(* ---- block checksums:  xx <ck> <hex data>  ->  decimal hash (Model/XXHash.v) ---- *)
+let do_xx args =
+  match args with
+  | [ck; data] -> let d = if data = "-" then [] else bytes_of_hex data in Z.to_string (zar_of_n (K.block_hash (ns ck) d))
   | _ -> "badcase"
 
 let dispatch line =
@@ -368,6 +373,7 @@ let dispatch line =
   | "zr" :: _ -> do_zr line
   | "fp" :: _ -> do_fp line
   | "ct" :: _ -> do_ct line
+  | "xx" :: args -> do_xx args
   | k :: _ -> "unknown " ^ k
 
 let () =
